@@ -135,8 +135,10 @@ def locator_item(entries, locator_type=VHDX_LOCATOR_TYPE, order=None):
 def build(states, slots, block_size=MB, sector=512, size=None, layer=1, seqs=(7, 6), regions=("meta", "bat"),
           meta_mb=2, bat_mb=3, base_mb=None, bitmaps=None, parent=None, disk_id=b"\x11" * 16, nslots=None, label="vhdx",
           total_blocks=None, window_at=0, sb_slot_mb=None, name=None, leave_allocated=False, stale_offsets=False,
-          extra_items=None):
-    """extra_items: [(where, guid16, data, flags)] further metadata items, where = 'first' | 'last'; flags bit 0 IsUser, bit 1
+          extra_items=None, locator_at=None, locator_order=None):
+    """locator_at: position of the parent locator in the metadata table and in the item area (default: last); the item is then
+    padded inside its own length to a multiple of 8, so that the next item is stored directly behind it.
+    extra_items: [(where, guid16, data, flags)] further metadata items, where = 'first' | 'last'; flags bit 0 IsUser, bit 1
     IsVirtualDisk, bit 2 IsRequired.  An item is identified by (ItemId, IsUser); items a reader does not know are ignored
     unless IsRequired is set."""
     """states: per block of the *window* one of NOT_PRESENT/UNDEFINED/ZERO_ST/UNMAPPED/DATA('D')/PARTIAL.
@@ -177,7 +179,11 @@ def build(states, slots, block_size=MB, sector=512, size=None, layer=1, seqs=(7,
              (VIRTUAL_DISK_SIZE, struct.pack("<Q", size), 6), (VIRTUAL_DISK_ID, disk_id, 6),
              (LOGICAL_SECTOR_SIZE, struct.pack("<I", sector), 6), (PHYSICAL_SECTOR_SIZE, struct.pack("<I", 4096), 6)]
     if has_parent:
-        items.append((PARENT_LOCATOR, locator_item(parent), 4))
+        if locator_at is None:
+            items.append((PARENT_LOCATOR, locator_item(parent, order=locator_order), 4))
+        else:
+            li_ = locator_item(parent, order=locator_order)
+            items.insert(locator_at, (PARENT_LOCATOR, li_ + b"\0" * ((-len(li_)) % 8), 4))
     n_std = len(items)
     for where, guid, data, flags in (extra_items or []):
         if where == "first":
